@@ -8,6 +8,15 @@
 
 #include <asmjit/support/support.h>
 
+#if defined(ASMJIT_VERIF)
+// Verification hook H1 (add-only, compiled only with -DASMJIT_VERIF): a fault point asked at the top of every Arena
+// allocation entry point. Returns non-zero when the request must fail. The library provides a weak default that
+// always returns 0 (see arena.cpp); a verification harness overrides it with a strong definition.
+// `kind`: 0 = alloc_oneshot (inline), 1 = _alloc_oneshot, 2 = _alloc_oneshot_zeroed, 3 = _alloc_reusable,
+// 4 = _alloc_reusable_zeroed.
+extern "C" int asmjit_verif_fault(int kind, size_t size) noexcept;
+#endif
+
 ASMJIT_BEGIN_NAMESPACE
 
 //! \addtogroup asmjit_support
@@ -316,6 +325,12 @@ public:
   [[nodiscard]]
   ASMJIT_INLINE T* alloc_oneshot(size_t size) noexcept {
     ASMJIT_ASSERT(Support::is_aligned(size, kAlignment));
+
+#if defined(ASMJIT_VERIF)
+    if (asmjit_verif_fault(0, size)) {
+      return nullptr;
+    }
+#endif
 
 #if defined(__GNUC__)
     // We can optimize this function a little bit if we know that `size` is relatively small - which would mean
